@@ -540,7 +540,8 @@ func analyzeBounds(p *core.Prog, f *core.Func) []boundsSite {
 		}
 		return 0, false
 	}
-	minLen := func(n *core.GNode, base ast.Expr) int64 {
+	var minLenD func(n *core.GNode, base ast.Expr, depth int) int64
+	minLenD = func(n *core.GNode, base ast.Expr, depth int) int64 {
 		var m int64
 		if l, _ := staticLen(base); l > m {
 			m = l
@@ -550,8 +551,35 @@ func analyzeBounds(p *core.Prog, f *core.Func) []boundsSite {
 				m = l
 			}
 		}
+		// a local assigned once from a sub-slice: rest := buf[12:] has len(buf)-12 bytes, fixed := buf[12:24] has 12 (the
+		// slice expression itself is a site of its own; given it succeeded, the length follows)
+		if id, ok := core.Unparen(base).(*ast.Ident); ok && depth < 3 {
+			if v, isVar := info.Uses[id].(*types.Var); isVar && !v.IsField() && !isParamOf(f, v) {
+				if d := singleDef(f, v); d != nil {
+					if se, isSe := core.Unparen(d).(*ast.SliceExpr); isSe && !se.Slice3 {
+						lo, okLo := int64(0), true
+						if se.Low != nil {
+							lo, okLo = core.ConstInt(info, se.Low)
+						}
+						if okLo && lo >= 0 {
+							if se.High != nil {
+								if hi, okHi := core.ConstInt(info, se.High); okHi && hi-lo > m {
+									m = hi - lo
+								}
+							} else if dn := g.NodeOf(se.Pos()); dn != nil {
+								// the source must not be re-sliced (it keeps its length facts only while it is not reassigned)
+								if l := minLenD(dn, se.X, depth+1) - lo; l > m {
+									m = l
+								}
+							}
+						}
+					}
+				}
+			}
+		}
 		return m
 	}
+	minLen := func(n *core.GNode, base ast.Expr) int64 { return minLenD(n, base, 0) }
 	// lenMinus: expression is len(base) - k
 	var lenMinus func(e ast.Expr, base ast.Expr) (int64, bool)
 	lenMinus = func(e ast.Expr, base ast.Expr) (int64, bool) {
